@@ -6,8 +6,9 @@ build() { cmake -G Ninja -S cfemm -B _build -DCMAKE_BUILD_TYPE=RelWithDebInfo -D
 echo "== with change: build"; build || { echo BUILD-FAILED; exit 1; }
 echo "== with change: suite"; ctest --test-dir _build -j8 --timeout 900 2>&1 | grep -E "tests passed|\(Failed\)|SEGFAULT|Timeout"
 echo "== with change: demo"; (cd demo && bash ./run.sh >/tmp/demo_with.log 2>&1; echo "demo rc=$?"; tail -3 /tmp/demo_with.log)
-git stash push -q -- cfemm || exit 3
+# (no `git stash`: the stash ref is shared by all worktrees of a repository - two seeding agents once swapped changes through it)
+git diff -- cfemm > "$WT/.seed.patch" && git apply -R "$WT/.seed.patch" || exit 3
 echo "== without change: build"; build
 echo "== without change: demo"; (cd demo && bash ./run.sh >/tmp/demo_without.log 2>&1; echo "demo rc=$?"; tail -3 /tmp/demo_without.log)
-git stash pop -q
+git apply "$WT/.seed.patch" && rm -f "$WT/.seed.patch"
 git diff --stat -- cfemm | tail -1
